@@ -5,6 +5,7 @@ import Driver.Frame
 import Driver.Seg
 import Driver.Conv
 import Driver.Cmp
+import Driver.DeepCopy
 /-! Line-protocol driver: one operation per input line, one canonical answer per output line. -/
 
 structure St where
@@ -23,6 +24,7 @@ def step (st : St) (line : String) : St × String :=
   | "seg" :: args => let (z, o) := Driver.Seg.handle st.zs ("seg" :: args); ({ st with zs := z }, o)
   | "zb" :: args => let (z, o) := Driver.Cmp.handle st.zb ("zb" :: args); ({ st with zb := z }, o)
   | "cmp" :: args => let (z, o) := Driver.Cmp.handle st.zb ("cmp" :: args); ({ st with zb := z }, o)
+  | "dc" :: args => (st, Driver.DeepCopy.handle args)
   | "conv" :: args => (st, Driver.Conv.handle args)
   | "prim" :: args => let (z, o) := Driver.Frame.handle st.z ("prim" :: args); ({ st with z := z }, o)
   | "z" :: args => let (z, o) := Driver.Frame.handle st.z ("z" :: args); ({ st with z := z }, o)
